@@ -13,6 +13,8 @@ def make_job(case, idx):
         j['scanner_mode'] = case['scanner_mode']
     if case.get('cached'):
         j['cached'] = True
+    if case.get('simple'):
+        j['simple'] = True
     return j
 
 
